@@ -21,6 +21,8 @@ def gen_pool_case(rng, bias=None, faults=True, max_tasks=12):
             t["malformed"] = "time_limit"
         elif rng.random() < 0.03:
             t["time_limit"] = 0
+        elif rng.random() < 0.07:
+            t["empty_script"] = True  # Target.spec defaults to "": the shell still has to be started and exits 0
         tasks.append(t)
     return {
         "max_cores": rng.choice([1, 1, 2, 2, 3, 4]),
